@@ -134,6 +134,7 @@ def generate(X):
         [(k, "[" + ", ".join(f"({w}, {c}, {'true' if p else 'false'})" for w, c, p in b) + "]") for k, b in buckets.items()]
     )
     # parser globals that shadow a NAME token (the predicate of _auto_positive_symbol)
+    rewritten = dict(getattr(_parsing, "_rewritten_name_alternatives", {}))
     gd = _parsing.global_dict
     pglobals = [k for k, o in gd.items() if isinstance(o, (sympy.Basic, type)) or callable(o)]
     # Python's case data of every non-ASCII character of the inputs
@@ -233,6 +234,9 @@ def generate(X):
         + "/-- the same two tables as dicts (what the model's look-ups walk) -/\n"
         + f"def lutT : Dict (Entry Nat) := {dict_literal([(code(k), raw(v)) for k, v in LUT.items()])}\n\n"
         + f"def prefixesT : Dict Nat := {dict_literal([(code(k), X.bits(v[0])) for k, v in PRE.items()])}\n\n"
+        + "/-- `_parsing._rewritten_name_alternatives`: documented names containing `°`, keyed by their rewritten\n"
+        + "    spelling (`kilodegC` ↦ `kdegC`); empty for an unyt that has no such table -/\n"
+        + f"def rewrittenT : Dict Nat := {dict_literal([(code(k), code(v)) for k, v in rewritten.items()])}\n\n"
         + "/-- `unit_prefixes`: symbol ↦ word form -/\n"
         + "def prefixWordsC : List (Nat × Nat) := [\n" + ",\n".join(preword_rows) + "\n]\n\n"
         + "/-- `default_unit_name_alternatives` (input of the generator) -/\n"
@@ -346,6 +350,7 @@ def generate(X):
         "alts_in": {k: list(v) for k, v in ALT.items()},
         "base_rows": [[lw, w, c, p] for lw, w, c, p in base],
         "parser_globals": pglobals,
+        "rewritten_names": rewritten,
         "chars": char_json,
         "names_out": {k: list(v) for k, v in NA.items()},
         "us_extra": us_extra,
